@@ -70,20 +70,36 @@ var envLabels = map[string]bool{"main": true, "producer": true, "consumer": true
 // early is set by the step hook: an output was closed before all inputs were closed and drained.
 var early string
 
+// hookFor watches "an output is closed only after all inputs are closed and
+// drained" on every run, by role: outputs are the channels consumers receive
+// from, inputs the channels producers send on and close.
 func hookFor(cfg obs.Cfg) func(*vsched.Sched, vsched.StepRec) {
-	ins, outs := obs.IO(cfg)
-	isOut := map[string]bool{}
-	for _, o := range outs {
-		isOut[o] = true
-	}
+	ins, outs := map[string]string{}, map[string]string{} // goroutine -> channel
 	return func(s *vsched.Sched, rec vsched.StepRec) {
-		if rec.Kind != "close" || !isOut[rec.Ch] || early != "" {
+		if s.Steps == 1 {
+			ins, outs = map[string]string{}, map[string]string{}
+		}
+		for _, p := range s.Pendings() {
+			switch {
+			case p.Label == "consumer" && p.Op == "recv":
+				outs[p.ID] = p.Ch
+			case p.Label == "producer" && (p.Op == "send" || p.Op == "close"):
+				ins[p.ID] = p.Ch
+			}
+		}
+		if early != "" {
 			return
 		}
-		for _, in := range ins {
-			n, closed, ok := s.ChanState(in)
-			if ok && (!closed || n > 0) {
-				early = fmt.Sprintf("output %s closed while input %s has closed=%v, %d buffered", rec.Ch, in, closed, n)
+		for _, o := range outs {
+			if _, closed, ok := s.ChanState(o); !ok || !closed {
+				continue
+			}
+			for _, in := range ins {
+				n, closed, ok := s.ChanState(in)
+				if ok && (!closed || n > 0) {
+					early = fmt.Sprintf("output %s is closed while input %s has closed=%v, %d buffered", o, in, closed, n)
+					return
+				}
 			}
 		}
 	}
@@ -116,7 +132,7 @@ func judge(cfg obs.Cfg, r *vsched.RunResult, o *obs.Obs) (class, detail string) 
 		if envBlocked {
 			return "deadlock", strings.Join(bs, "; ")
 		}
-		return "goroutines left blocked after the outputs were closed and drained", strings.Join(bs, "; ")
+		return "goroutines left blocked after the combinator finished", strings.Join(bs, "; ")
 	case "done":
 		return obs.Check(cfg, o.Snapshot(), true)
 	}
@@ -125,7 +141,7 @@ func judge(cfg obs.Cfg, r *vsched.RunResult, o *obs.Obs) (class, detail string) 
 
 var traceW *bufio.Writer
 
-func logRun(id string, cfg obs.Cfg, r *vsched.RunResult, class string) int {
+func logRun(id string, cfg obs.Cfg, r *vsched.RunResult, class string, sn obs.Snap) int {
 	if cfg.Fail == nil {
 		cfg.Fail = []int{}
 	}
@@ -137,7 +153,22 @@ func logRun(id string, cfg obs.Cfg, r *vsched.RunResult, class string) int {
 	for i, l := range r.Lines {
 		fmt.Fprintf(traceW, `{"ev":"step","run":%q,"i":%d,%s}`+"\n", id, i+1, l)
 	}
-	fmt.Fprintf(traceW, `{"ev":"end","run":%q,"outcome":%q,"class":%q}`+"\n", id, r.Outcome, class)
+	ints := func(xs []int) string {
+		if xs == nil {
+			xs = []int{}
+		}
+		b, _ := json.Marshal(xs)
+		return string(b)
+	}
+	bools := func(xs []bool) string {
+		if xs == nil {
+			xs = []bool{}
+		}
+		b, _ := json.Marshal(xs)
+		return string(b)
+	}
+	fmt.Fprintf(traceW, `{"ev":"end","run":%q,"outcome":%q,"class":%q,"returned":%v,"results":%s,"err":%d,"atreturn":%s}`+"\n",
+		id, r.Outcome, class, sn.Returned, ints(sn.Results), sn.ErrCode, bools(sn.AtReturn))
 	return len(r.Lines) + 2
 }
 
@@ -220,9 +251,9 @@ func runCfg(ci int, cfg obs.Cfg, job *Job) Result {
 	emit := func(id string, choices []int) string {
 		m, o := mainFor(cfg)
 		early = ""
-		r := vsched.ReplayChoices(m, choices, true)
+		r := vsched.ReplayChoices(m, choices, true, job.MaxSteps)
 		class, _ := judge(cfg, r, o)
-		res.Lines += logRun(id, cfg, r, class)
+		res.Lines += logRun(id, cfg, r, class, o.Snapshot())
 		res.Logged++
 		return class
 	}
